@@ -70,6 +70,8 @@ def systematic(tier):
                             for kind in (('plumpy', 'loop') if adapter != 'kiwi' else ('kiwi',)):
                                 cases.append({'adapter': adapter, 'depth': depth, 'level': level, 'outcome': outcome,
                                               'order': list(order), 'gaps': [gap] * (level + 1), 'future_kind': kind})
+    for outcome in ('value', 'exc', 'factory_raises'):
+        cases.append({'adapter': 'create_task', 'awaits': [0, 1], 'outcome': outcome, 'others': 1})
     for scenario in ('run', 'run_raises', 'run_twice', 'cancel_run', 'run_cancel', 'run_raises_twice'):
         cases.append({'adapter': 'action', 'scenario': scenario})
     _sys_cache['all'] = cases
@@ -83,7 +85,7 @@ def random_case(rng, tier):
                                                              'run_raises_twice'])}
     if adapter == 'create_task':
         return {'adapter': 'create_task', 'awaits': [rng.choice([0, 0.5, 1]) for _ in range(rng.randint(0, 3))],
-                'outcome': rng.choice(['value', 'value', 'exc']), 'others': rng.randint(0, 2)}
+                'outcome': rng.choice(['value', 'value', 'exc', 'factory_raises']), 'others': rng.randint(0, 2)}
     depth = rng.randint(1, 4)
     outcome = rng.choice(['value', 'value', 'exc', 'cancel'])
     level = depth - 1 if outcome == 'value' else rng.randrange(depth)
@@ -277,10 +279,15 @@ def _run_create_task(case, plumpy, loop, result, events):
         await asyncio.sleep(0.25 * (index + 1))
         events.append(('other', index))
 
+    def raising_factory():
+        # the callable handed to create_task fails before there is any coroutine (e.g. called with the wrong arguments)
+        calls[0] += 1
+        raise boom
+
     with loop.running():
         for index in range(case.get('others', 0)):
             loop.create_task(other(index))
-        future = plumpy.futures.create_task(coro, loop)
+        future = plumpy.futures.create_task(raising_factory if case['outcome'] == 'factory_raises' else coro, loop)
         if future.done():
             result.violate('early_completion', 'create_task', 'the future was done before the coroutine ran')
         while loop.step_once():
@@ -291,8 +298,10 @@ def _run_create_task(case, plumpy, loop, result, events):
         result.violate('wrong_outcome', 'create_task:calls', f'the coroutine function was called {calls[0]} times')
     if case['outcome'] == 'value' and got != ('value', ('payload', len(case['awaits']))):
         result.violate('wrong_outcome' if got[0] != 'pending' else 'not_completed', 'create_task:value', f'got {got!r}')
-    if case['outcome'] == 'exc' and not (future.done() and not future.cancelled() and future.exception() is boom):
-        result.violate('wrong_outcome' if got[0] != 'pending' else 'not_completed', 'create_task:exc', f'got {got!r}')
+    if case['outcome'] in ('exc', 'factory_raises') and not (future.done() and not future.cancelled()
+                                                             and future.exception() is boom):
+        result.violate('wrong_outcome' if got[0] != 'pending' else 'not_completed', f'create_task:{case["outcome"]}',
+                       f'got {got!r}')
 
 
 def _run_action(case, plumpy, result, events):
